@@ -221,6 +221,9 @@ func c23PNGen() *rapid.Generator[int64] {
 			if v > c23MaxPN {
 				v = c23MaxPN
 			}
+			if v < 0 {
+				v = 0
+			}
 			return v
 		case 2:
 			return c23MaxPN - rapid.Int64Range(0, 1<<33).Draw(t, "fromTop")
@@ -267,7 +270,7 @@ func c23Gen(t *rapid.T) c23Case {
 			d = c.PN + 1 // A = -1
 		}
 		if d > c.PN+1 {
-			d = c.PN + 1
+			d = rapid.Int64Range(1, c.PN+1).Draw(t, "dclamped")
 		}
 		c.D = d
 		switch rapid.IntRange(0, 3).Draw(t, "lhow") {
